@@ -27,12 +27,21 @@ class Truncate(Family):
 
     def configs(self, tier):
         Ls = (2, 3, 4, 5, 6) if tier == "quick" else (2, 3, 4, 5, 6, 7, 8)
-        return [{"L": L, "lr": lr, "rr": rr} for L in Ls for lr in (False, True) for rr in (False, True)]
+        return [{"L": L, "lr": lr, "rr": rr} for L in Ls for lr in (False, True) for rr in (False, True)] + \
+               [{"L": 4, "lr": lr, "rr": rr, "xtype": t} for lr in (False, True) for rr in (False, True) for t in ("int-list", "int64")]
 
-    def run(self, ctx, inst, L, lr, rr):
+    def run(self, ctx, inst, L, lr, rr, xtype=None):
         from traffic_weaver import process
         xs, ys = ctx.reals("x", L), ctx.reals("y", L)
         increasing(ctx, xs)
+        x_in = None
+        if xtype:
+            # integer-typed abscissae (list of ints / int64 array) with REAL bounds: the bounds are not narrowed to x's type
+            import numpy as np
+            ctx.typed_inputs = True
+            xi = [-3, 0, 2, 7][:L]
+            xs = [ctx.const(v) if ctx.symbolic else float(v) for v in xi]
+            x_in = list(xi) if xtype == "int-list" else np.array(xi, dtype=np.int64)
         a, b = ctx.real("left"), ctx.real("right")
         X = [ctx.exact(v) for v in xs] if not ctx.symbolic else xs
         A = ctx.exact(a) if not ctx.symbolic else a
@@ -41,13 +50,14 @@ class Truncate(Family):
         la = A * span + X[0] if lr else A
         ra = B * span + X[0] if rr else B
         ctx.assume(la < ra)
-        rx, ry = process.truncate(arr(ctx, xs), arr(ctx, ys), a, b, x_left_as_ratio=lr, x_right_as_ratio=rr)
+        rx, ry = process.truncate(arr(ctx, xs) if x_in is None else x_in, arr(ctx, ys), a, b, x_left_as_ratio=lr, x_right_as_ratio=rr)
         li, ri = o_bounds(X, la, ra)
         info = {"li": li, "ri": ri, "lr": lr, "rr": rr}
         ctx.claim("truncate:length", len(rx) == ri - li + 1 and len(ry) == ri - li + 1, info)
         if len(rx) == ri - li + 1 and len(ry) == len(rx):
             for k in range(ri - li + 1):
-                ctx.claim("truncate:elements", ctx.And(ctx.same(rx[k], xs[li + k]), ctx.same(ry[k], ys[li + k])), dict(info, k=k))
+                ctx.claim("truncate:elements", ctx.And(ctx.same(rx[k], xs[li + k]) if x_in is None else ctx.eq(rx[k], xs[li + k]),
+                                                       ctx.same(ry[k], ys[li + k])), dict(info, k=k))
 
 
 class WeaverTruncate(Family):
@@ -192,7 +202,7 @@ META = {
                    "element by element (identical terms) with the run chosen by a declarative oracle. Index-based "
                    "operations are enumerated over all in-range start/stop/step and compared with Python slicing.",
     "bounds": {"quick": "series of 2..6 points (truncate), 3..5 (Weaver, incl. after a reshape), 2..5 (slice by value), "
-                        "1..5 (indices, steps 1..3); Weaver.truncate_by_value also from arbitrary states (gridded / reshaped / other-range) of 3..4 points", "thorough": "up to 8 / 6 / 7 / 7 points; arbitrary states of 3..5 points"},
+                        "1..5 (indices, steps 1..3); Weaver.truncate_by_value also from arbitrary states (gridded / reshaped / other-range) of 3..4 points; integer-typed abscissae (list / int64, 4 points) with real bounds", "thorough": "up to 8 / 6 / 7 / 7 points; arbitrary states of 3..5 points"},
     "outside": ["longer series", "float rounding in the ratio conversion"],
     "assumptions": ["x strictly increasing", "left < right (otherwise ValueError, see C20)",
                     "slice_by_value: given bounds are samples of x (otherwise ValueError, see C20), start <= stop"],
